@@ -156,6 +156,7 @@ pub fn run_trk(line: &str) -> String {
     let n: usize = t[1].parse().unwrap();
     let peers: Vec<usize> = if t[2] == "-" { vec![] } else { t[2].split(',').map(|x| x.parse().unwrap()).collect() };
     let interested: usize = t[3].parse().unwrap();
+    let with_kill = t.get(4).map(|x| *x == "kill").unwrap_or(false);
     let rt = tokio::runtime::Builder::new_current_thread().enable_all().start_paused(true).build().unwrap();
     let r = guarded(|| {
         rt.block_on(async {
@@ -186,6 +187,7 @@ pub fn run_trk(line: &str) -> String {
             });
             s.verif_set_tracker_job(job);
             let mut out = vec![];
+            let mut kill = "-";
             // the manager's event loop, as far as the tracker channel goes: one command at a time; a manager that
             // does not come back within half a (virtual) second while the tracker keeps failing is blocked
             // command k (0-based) is sent at k seconds; a manager that is not blocked has handled it right then
@@ -197,6 +199,21 @@ pub fn run_trk(line: &str) -> String {
                         out.push(if late.abs() < 100 { "OK" } else { "BLOCKED" });
                         if late.abs() >= 100 {
                             break;
+                        }
+                        // meanwhile the session keeps serving: a connection that ends while the tracker is still
+                        // failing is handled at once (no candidates yet, so the manager asks for a new announce)
+                        if k == 0 && n > 0 && with_kill {
+                            use rdest::verif::PeerCmd;
+                            s.verif_add_peer("10.0.2.1:6881", None);
+                            let r = tokio::time::timeout(
+                                std::time::Duration::from_millis(100),
+                                s.verif_handle(PeerCmd::KillReq { addr: "10.0.2.1:6881".to_string(), reason: "x".to_string() }),
+                            )
+                            .await;
+                            kill = if r.is_ok() { "OK" } else { "BLOCKED" };
+                            if r.is_err() {
+                                break;
+                            }
                         }
                     }
                     Ok(false) => out.push("CLOSED"),
@@ -219,10 +236,11 @@ pub fn run_trk(line: &str) -> String {
                 .map(|(a, _)| a.split(':').next().unwrap().rsplit('.').next().unwrap().to_string())
                 .collect();
             format!(
-                "{} | {} | {}",
+                "{} | {} | {} | {}",
                 out.join(","),
                 if contacted.is_empty() { "-".to_string() } else { contacted.iter().map(|x| x.to_string()).collect::<Vec<_>>().join(",") },
-                if cands.is_empty() { "-".to_string() } else { cands.join(",") }
+                if cands.is_empty() { "-".to_string() } else { cands.join(",") },
+                kill
             )
         })
     });
